@@ -253,6 +253,9 @@ pub struct MpmcWorld<A: MpmcApi> {
     next_id: usize,
     next_tag: u32,
     prefill_left: u64,
+    /// a burst of NewRecv / Poll pairs at the start of the run (many simultaneous receivers)
+    burst_left: u64,
+    burst_poll: Option<usize>,
     observer_on: bool,
 }
 
@@ -336,10 +339,20 @@ impl<A: MpmcApi> MpmcWorld<A> {
             Some(None) => match self.peek_recv() {
                 RecvOutcome::Closed => true,
                 RecvOutcome::Value(t) => {
+                    if who.starts_with("stream") {
+                        // C17: a stream ends (None) only once the channel is closed and drained
+                        env.fail("C17", "stream-ended-early", format!("{} yielded None although value {} accepted before the close is still undelivered", who, t), true);
+                    }
                     env.fail("C11", "closed-before-drained", format!("{} reported the channel closed although value {} accepted before the close is still undelivered", who, t), true);
                     false
                 }
                 RecvOutcome::Empty => {
+                    if who.starts_with("stream") {
+                        env.fail("C17", "stream-ended-early", format!("{} yielded None (end of stream) although the channel is open", who), true);
+                    } else {
+                        // C17: a receive future completes with None only on a closed, drained channel
+                        env.fail("C17", "completed-with-none-while-open", format!("{} completed with None although the channel is open", who), true);
+                    }
                     env.fail("C11", "closed-while-open", format!("{} reported the channel closed although it is open", who), true);
                     false
                 }
@@ -642,6 +655,8 @@ impl<A: MpmcApi> World for MpmcWorld<A> {
             next_id: 0,
             next_tag: 1,
             prefill_left: cfg_get(cfg, "prefill", 0).max(0) as u64,
+            burst_left: cfg_get(cfg, "burst", 0).max(0) as u64,
+            burst_poll: None,
             observer_on,
         }
     }
@@ -664,6 +679,16 @@ impl<A: MpmcApi> World for MpmcWorld<A> {
                 return if self.prim_alive { Some(Op::new(OP_DROP_PRIM, 0, 0, 0)) } else { None };
             }
             return Some(*rng.pick(&cands));
+        }
+        if (self.burst_left > 0 || self.burst_poll.is_some()) && self.next_id < MAX_IDS - 1 && !rxs.is_empty() {
+            if let Some(id) = self.burst_poll.take() {
+                return Some(Op::new(OP_POLL, id as u32, 0, 0));
+            }
+            self.burst_left -= 1;
+            self.next_id += 1;
+            let id = self.next_id - 1;
+            self.burst_poll = Some(id);
+            return Some(Op::new(OP_NEW_RECV, id as u32, *rng.pick(&rxs) as u32, 0));
         }
         if self.prefill_left > 0 && !txs.is_empty() && (self.next_tag as usize) < val::MAX_TAGS - 1 {
             self.prefill_left -= 1;
@@ -1297,7 +1322,10 @@ fn draw_cfg(rng: &mut Rng) -> Cfg {
     // live futures: mostly few (small joint states recur), sometimes many (batch loops, deep heaps / queues)
     let k = if rng.pct(88) { rng.range(1, 4) } else { *rng.pick(&[6i64, 9]) };
     c.insert("k".into(), k);
-    c.insert("len".into(), rng.range(8, 96) + prefill);
+    // rarely: more than 32 simultaneous receivers (close() and the last sender wake them all)
+    let burst = if prefill == 0 && rng.pct(3) { *rng.pick(&[33i64, 34, 40]) } else { 0 };
+    c.insert("burst".into(), burst);
+    c.insert("len".into(), rng.range(8, 96) + prefill + 2 * burst);
     c.insert("realism".into(), *rng.pick(&[10, 50, 90]));
     c.insert("observer".into(), rng.pct(80) as i64);
     let base = [150u32, 320, 90, 40, 90, 150, 70, 25, 30, 40, 30, 40, 25, 2];
